@@ -390,6 +390,7 @@ def check_run(case) -> Case:
 BAD_YAML = "magic-numbers: [1, 2\n  x: {\n"
 BAD_JSON = "{not json"
 USAGE = ["missing-path", "missing-path-among-valid", "config-missing", "config-malformed-yaml", "config-malformed-json",
+         "config-yaml-not-a-mapping", "config-json-not-a-mapping", "auto-config-not-a-mapping",
          "auto-config-malformed", "global-config-malformed", "format-invalid", "format-no-value", "unknown-option",
          "threshold-nonint", "rules-invalid-json", "perf-rule-invalid", "project-root-missing", "project-root-is-file"]
 BENIGN = ["config-empty-file", "config-comments-only"]
@@ -417,7 +418,11 @@ def usage_args(cmd, cls, k):
         a += ["--config", "bad.yaml", "."]
     elif cls == "config-malformed-json":
         a += ["--config", "bad.json", "."]
-    elif cls == "auto-config-malformed":
+    elif cls == "config-yaml-not-a-mapping":  # parses, but is a list / a bare scalar: a malformed configuration
+        a += ["--config", ["list.yaml", "scalar.yaml"][k % 2], "."]
+    elif cls == "config-json-not-a-mapping":
+        a += ["--config", "list.json", "."]
+    elif cls in ("auto-config-malformed", "auto-config-not-a-mapping"):
         a += ["."]
     elif cls == "global-config-malformed":
         g, a = ["--config", "bad.yaml"], [cmd, "."]
@@ -464,11 +469,16 @@ def check_usage(case) -> Case:
     files["bad.yaml"] = BAD_YAML
     files["bad.json"] = BAD_JSON
     files["plainfile.txt"] = "x\n"
+    files["list.yaml"] = "- nesting\n- srp\n"
+    files["scalar.yaml"] = "nesting max_nesting_depth 2\n"
+    files["list.json"] = '["nesting", "srp"]\n'
     files["benign.yaml"] = "" if cls == "config-empty-file" else "# nothing configured here\n# dry:\n#   enabled: true\n"
     fails = []
     with Project(files, config=config) as p:
         if cls == "auto-config-malformed":
             p.write(".thailint.yaml", BAD_YAML)
+        if cls == "auto-config-not-a-mapping":
+            p.write(".thailint.yaml", "- nesting\n- srp\n")
         args = usage_args(cmd, cls, case["k"])
         r = _run(args, p.root, mode)
         if cls in BENIGN:
